@@ -19,7 +19,7 @@ P = {
                 text="33 component types compared with an independent implementation written from the manual and under every invariance that follows from the documented definition; fitting rotation checked to be the least-squares optimum.",
                 note="conditioning-aware tolerance 1e-10*scale + 1e-11*sensitivity; documented singular geometries skipped; path CVs, neuralNetwork, alch*, mapTotal, Lepton/Torch components uncovered (listed in the evidence)"),
     "C03": dict(cat="exploration", tech="runtime monitor: differential histories (uninterrupted vs stop / state file / fresh process / load / resume) compared event by event at the engine boundary, both state formats, file / string / buffer channels; save(load(S)) == S",
-                text="For 29 bias families (restraints fixed/moving/staged, walls, linear, ABF/eABF, metadynamics variants, OPES, ABMD, histogram, extended Lagrangian) every stop step K of a short history with off-grid excursions is resumed in a fresh process; all later engine-visible events and the final state must agree. Exhaustive over K in the thorough tier.",
+                text="For 35 bias families (restraints fixed/moving/staged, walls, linear, ABF/eABF, TI accumulators, metadynamics variants, OPES, ABMD, ALB, histogram, histogramRestraint, reweightaMD, extended Lagrangian) every stop step K of a short history with off-grid excursions is resumed in a fresh process; all later engine-visible events and the final state must agree; for part of the K the state is loaded into an instance that has already run (load between two runs of the engine), and for part of the K the run simply ends and a new run of the same session follows. Exhaustive over K in the thorough tier.",
                 note="positions and physical forces are imposed, so no chaotic amplification: reals agree to 1e-10 relative (state files carry 14 digits), integers exactly; step K is recomputed with step_relative()==0 as engines do"),
     "C04": dict(cat="exploration", tech="runtime monitor: lock-step reference model of the ABF estimator fed with exactly imposed values and dyadic projected forces; stored counts (==), stored mean gradients (printed precision) and applied force compared after every step; ASan sample",
                 text="1-3 variables, both total-force timing conventions, periodic zero-mean, ramp corner values, maxForce, applyBias off, a second bias with/without subtractAppliedForce, off-grid excursions, run boundaries.",
@@ -40,7 +40,7 @@ P = {
     "C10": dict(cat="exploration", tech="ASan/UBSan processes over a (object type x keyword x boundary value) grid, one process per case; differential test of surviving objects after a rejected configuration",
                 text="Every keyword (occurring in a template or harvested from the get_keyval calls of the class that parses the block) x {0, -1, 1, 2, 2^31-1, 2^31, 2^32, 2^61, 2^63-1, 1e30, 1e308, nan, inf, -inf, empty, removed, list/vector length errors, bad atoms, missing files, swapped boundaries} plus seeded pairs, one ASan/UBSan process per case through init, steps, state and output writes: must end with success or an error, never a signal, sanitizer report, escaping exception, unbounded allocation or hang. Survivors: after a rejected configuration fed through cv config (including colvars that use the deprecated wall keywords), the previously defined objects behave bit-identically to a control that never saw it, and a later valid configuration is accepted in both.", note="quick runs a stratified sample (about 3800 cases), thorough about 40000; hang = 120 s watchdog re-run once at 10x before it is reported"),
     "C11": dict(cat="fault_enumeration", tech="strace syscall-level kill injection + LD_PRELOAD partial-write shim over every file-system call of a state write; exhaustive truncation and bit flips of valid states under ASan; libFuzzer on state input; typed round trip through memory_stream",
-                text="Every call (and partial write) of state writes after the first complete state is turned into a crash point, then a fresh process must load the state file or its backup and find one of the states the uninjected run produced; every truncation offset of text and binary states of 7 configurations must be rejected inside object blocks and never crash; every value type round-trips bit-exactly.",
+                text="Every call (and partial write) of state writes after the first complete state is turned into a crash point, then a fresh process must load the state file or its backup and find one of the states the uninjected run produced; every truncation offset of text and binary states of 7 configurations must be rejected inside object blocks and never crash; every value type round-trips bit-exactly; fault sequences: a state write that fails with ENOSPC (first or last write() of the file), the run going on, then death at every call of the following state writes.",
                 note="crash = SIGKILL of the process (no power-loss / page-cache model); one format limitation (binary hill list has no count) is a known finding"),
     "C12": dict(cat="exploration", tech="schedule controller behind the proxy's virtual SMP methods (seeded permutations x thread-id maps, std::thread schedules) and the real OpenMP loops with 1-16 threads, all compared bitwise with the serial run; ThreadSanitizer with clang/libomp/Archer for races",
                 text="Each scenario (two-component variables, restraints, metadynamics, histogram, OPES, native scripted-force task) is executed under >100 distinct schedules plus TSan runs; every event, the final state and the trajectory file must be bit-identical to the serial reference and TSan must stay silent.",
@@ -54,7 +54,7 @@ P = {
     "C15": dict(cat="exploration", tech="runtime monitor: imposed dyadic values (on bin edges, boundaries, periods away) vs the literal binning rule, stored counts and multicolumn file compared cell by cell; in-process grid write/read round trips (multicol, restart text/binary, raw)",
                 text="Histograms and ABF count grids of 1-3 variables fed imposed dyadic values on bin edges, boundaries, just inside/outside, whole periods away: every sample lands in exactly the bin given by floor((x-lower)/width) (periodic: modulo), out-of-range samples are dropped (not clamped), totals conserved; grids written as multicolumn / restart text / restart binary / raw and read back must reproduce parameters and data exactly.", note="gatherVectorColvars histograms are rejected by the library at initialisation (known finding), so per-element weights cannot be exercised"),
     "C16": dict(cat="exploration", tech="in-process harness on integrate_potential / gradient grids with independent numpy oracles: 1-D cumulative sums and closure, residual of the discrete Poisson problem (own operator, independent Laplacian, dense least squares), refinement-order test against analytic surfaces, incremental-vs-batch divergence through the guarded accessor, real ABF runs",
-                text="Random fields on 1-3-D grids with all periodicity patterns and anisotropic widths, six arrival-order classes, three resolutions per analytic surface.",
+                text="Random fields on 1-3-D grids with all periodicity patterns and anisotropic widths, six arrival-order classes, three resolutions per analytic surface; the divergence itself against the documented formula evaluated independently (several grids per process); end-to-end files of the TI estimator and of 2-D ABF/eABF fed through inputPrefix (zero-step merge runs and short runs).",
                 note="max-norm order at corners where >=2 non-periodic directions meet is h^2 log(1/h): counted separately, RMS order must still be 2"),
     "C17": dict(cat="exploration", tech="lock-step reference model of the documented BAOA integrator with a controlled Gaussian source + model-free invariants on the observed coordinate/velocity/energies",
                 text="Extended-Lagrangian variables (reflecting walls / periodic / free, friction 0 and > 0, timeStepFactor 1-3, harmonic / walls / metadynamics / ABF biases, bypassing biases) driven over imposed excursions: the documented integrator is run in lock-step from the imposed actual value, the observed bias force and the logged Gaussians and compared every step; model-free laws on the same logs: energy drift bounded and O(dt^2) when dt is halved (friction 0), never outside a reflecting wall, repeated step / new run / restart twins, one-step identities tying Ep, Ek, total and applied force to the reported state, force routing (atoms feel only the spring and bypassing biases), equipartition over 2e5 updates (thorough).",
@@ -66,7 +66,7 @@ P = {
                 text="Column/label agreement, step stamps, one line per multiple of the output frequency across run boundaries and object addition/deletion; running average/deviation and auto/cross correlation functions vs textbook definitions.",
                 note="printed precision (1e-10 relative for derived quantities)"),
     "C20": dict(cat="exploration", tech="libFuzzer + ASan/UBSan over script command sequences with a usability epilogue; agreement of script queries with the engine-side event log; equivalence of script-driven and engine-driven paths",
-                text="libFuzzer over sequences of run_colvarscript_command calls (well-formed and malformed, every command of the table at least once each way) interleaved with steps, with an epilogue that must behave as a pristine module; after every step of generated scenarios the script queries equal the engine-side event log at the printed precision; cv config / load / loadfromstring (objects defined in the same or in reverse order) / addforce / delete are equivalent to their engine-driven counterparts on the subsequent steps.", note="equivalence is bitwise, except reordered loaders (sums run in another order): 1e-9 relative"),
+                text="libFuzzer over sequences of run_colvarscript_command calls (well-formed and malformed, every command of the table at least once each way) interleaved with steps, with an epilogue that must behave as a pristine module; after every step of generated scenarios the script queries equal the engine-side event log at the printed precision; cv config / load / loadfromstring (objects defined in the same or in reverse order, into a fresh module or into one that has already run) / addforce / delete / modifycvcs are equivalent to their engine-driven counterparts on the subsequent steps; two interactive sessions with the same history, one through files (configfile, bias save/load twice under one name, reset, file replaced, configfile) and one through strings, give equal step events.", note="equivalence is bitwise, except reordered loaders (sums run in another order): 1e-9 relative"),
 }
 
 
